@@ -79,11 +79,14 @@ def run(rep, tier, seed):
     outs = {}
     # the grid in quarters of a user unit (exact in binary), then in fifths (decimal fractions
     # that are not: 16.2 - 6.2 is 9.999999 or 10.000001 before it is written as 10)
-    for unit, share in ((0.25, 1), (0.2, 3 if tier == "quick" else 1)):
+    for unit, share in ((0.25, 1), (0.2, 3 if tier == "quick" else 1), (0.1, 0)):
         geom.UNIT = unit
         cases = []
         for j, c in enumerate(recs):
-            if j % share:
+            big = max(abs(v) for v in c["exp"].values()) >= 50
+            # (the boxes on multiples of ten are always taken on the decimal grids; the grid of
+            # tenths takes only those)
+            if not (big and unit != 0.25) and (share == 0 or j % share):
                 continue
             for v in range(nvar):
                 r2 = random.Random(rnd.random())
